@@ -302,7 +302,51 @@ def check(c, st, name, key, inputs, assume, call, expected, raise_cond=None, rel
         bad = [(i, float(g), w) for i, (g, w) in enumerate(zip(got, want)) if abs(float(g) - w) > rel * max(1.0, abs(w)) * 10]
         return bool(bad), dict(detail, mismatches=bad[:5], want=want[:12])
 
-    return c.sym_explore(name, fn, post, assume, replay, key=key, max_paths=max_paths)
+    return _explore(c, name, fn, post, assume, replay, key, max_paths)
+
+
+class CachedExplorer(pysym.Explorer):
+    """pysym.Explorer that does not ask the solver again about a branch condition already decided on the current path
+    (the sorted() calls of the compute_allowed_* family repeat the same comparisons a dozen times)."""
+
+    def branch(self, cond):
+        if getattr(self, "_owner", None) is not self.decisions:
+            self._owner, self._known = self.decisions, {}
+        cond = z3.simplify(cond)
+        if z3.is_true(cond):
+            return True
+        if z3.is_false(cond):
+            return False
+        k = cond.get_id()
+        if k in self._known:
+            return self._known[k][1]
+        d = super().branch(cond)
+        self._known[k] = (cond, d)  # keeps the term alive: ids are only unique among live terms
+        if getattr(self, "_owner", None) is not self.decisions:  # (cannot happen: decisions list is per path)
+            self._owner, self._known = self.decisions, {}
+        return d
+
+
+def _explore(c, name, fn, post, assume, replay, key, max_paths):
+    """Case.sym_explore with the caching explorer."""
+    ex = CachedExplorer(assume, max_paths=max_paths, timeout_ms=c.timeout_ms)
+
+    def on_path(res, exc, pc):
+        claim = post(res, exc)
+        if isinstance(claim, SymBool):
+            claim = claim.t
+        c.prove(f"{name}#path{ex.paths}", claim, pc, replay, key)
+
+    try:
+        ex.explore(fn, on_path)
+    except pysym.Budget as b:
+        c.inconclusive.append(f"{c.name}/{name}: exploration budget: {b}")
+    c.paths += ex.paths
+    c.queries += ex.queries
+    c.solver_s += ex.solver_s
+    if ex.unknown:
+        c.notes.append(f"{name}: {ex.unknown} feasibility queries were 'unknown' (both sides explored)")
+    return ex
 
 
 def reals(prefix, n, lo=None, hi=None):
@@ -432,7 +476,7 @@ def _case_predicates(c, st, M, case):
     def mk(i):
         return M.Material(**{nm: tuple(i[nm]) for nm in names})
 
-    def boolcheck(label, key, getter, must, may, exact=None):
+    def boolcheck(label, key, getter, must, may, nice=None):
         """the predicate is True whenever ``must`` holds and only when ``may`` holds."""
         def expected(res, m=None):
             if m is not None:  # concrete replay
@@ -442,14 +486,21 @@ def _case_predicates(c, st, M, case):
             return z3.And(z3.Implies(must, r), z3.Implies(r, may))
 
         check(c, st, label, key, inputs, assume, lambda i: getter(mk(i)), expected)
+        if nice is not None:
+            # same obligation away from the isclose tolerance edge (diagonals exactly equal): witnesses that survive float replay
+            check(c, st, label + " [diagonal entries exactly equal]", key, inputs, assume + nice, lambda i: getter(mk(i)), expected)
+
+    def eqdiag(p, v=None):
+        return [p[0] == p[4], p[4] == p[8]] + ([p[0] == v] if v is not None else [])
 
     for nm, short in zip(names, ["permittivity", "permeability", "electric_conductivity", "magnetic_conductivity"]):
         mu, ma = _iso_bounds(tt[nm])
-        boolcheck(f"is_isotropic_{short}", f"predicate:is_isotropic_{short}", lambda m, s=short: getattr(m, f"is_isotropic_{s}"), mu, ma)
+        boolcheck(f"is_isotropic_{short}", f"predicate:is_isotropic_{short}", lambda m, s=short: getattr(m, f"is_isotropic_{s}"), mu, ma, nice=eqdiag(tt[nm]))
         d = _diag_exact(tt[nm])
         boolcheck(f"is_diagonally_anisotropic_{short}", f"predicate:is_diagonally_anisotropic_{short}", lambda m, s=short: getattr(m, f"is_diagonally_anisotropic_{s}"), d, d)
     pairs = [_iso_bounds(tt[nm]) for nm in names]
-    boolcheck("is_all_isotropic", "predicate:is_all_isotropic", lambda m: m.is_all_isotropic, z3.And(*[p[0] for p in pairs]), z3.And(*[p[1] for p in pairs]))
+    boolcheck("is_all_isotropic", "predicate:is_all_isotropic", lambda m: m.is_all_isotropic, z3.And(*[p[0] for p in pairs]), z3.And(*[p[1] for p in pairs]),
+              nice=[e for nm in names for e in eqdiag(tt[nm])])
     dall = z3.And(*[_diag_exact(tt[nm]) for nm in names])
     boolcheck("is_all_diagonally_anisotropic", "predicate:is_all_diagonally_anisotropic", lambda m: m.is_all_diagonally_anisotropic, dall, dall)
     # isotropy implies diagonality (consistency of the two classifiers on one tensor)
@@ -465,13 +516,14 @@ def _case_predicates(c, st, M, case):
             return z3.And(z3.Implies(mu, r), z3.Implies(r, ma))
 
         check(c, st, fn_name, f"predicate:{fn_name}", dict(p=tuple(T["permittivity"])), [], lambda i, f=fn_name: getattr(M, f)(tuple(i["p"])), expected)
+        check(c, st, fn_name + " [diagonal entries exactly equal]", f"predicate:{fn_name}", dict(p=tuple(T["permittivity"])), eqdiag(p), lambda i, f=fn_name: getattr(M, f)(tuple(i["p"])), expected)
     # magnetic / conductive: True iff the tensor differs from the identity / from zero (isclose band on the 1.0 entries)
     rt = z3.RealVal(Fraction(1e-9))
     ab = lambda x: z3.If(x >= 0, x, -x)  # noqa: E731
     p = tt["permeability"]
     ident_exact = z3.And(_diag_exact(p), p[0] == 1, p[4] == 1, p[8] == 1)
     ident_loose = z3.And(_diag_exact(p), *[z3.Or(ab(p[i] - 1) <= rt * ab(p[i]), ab(p[i] - 1) <= rt) for i in (0, 4, 8)])
-    boolcheck("is_magnetic", "predicate:is_magnetic", lambda m: m.is_magnetic, z3.Not(ident_loose), z3.Not(ident_exact))
+    boolcheck("is_magnetic", "predicate:is_magnetic", lambda m: m.is_magnetic, z3.Not(ident_loose), z3.Not(ident_exact), nice=eqdiag(p, 1))
     for nm, prop in (("electric_conductivity", "is_electrically_conductive"), ("magnetic_conductivity", "is_magnetically_conductive")):
         zero = z3.And(*[x == 0 for x in tt[nm]])
         boolcheck(prop, f"predicate:{prop}", lambda m, q=prop: getattr(m, q), z3.Not(zero), z3.Not(zero))
@@ -487,7 +539,8 @@ def _case_ordering(c, st, M, case):
     for nm in names:
         vals[nm] = {}
         for p in props:
-            vs, _ = reals(f"{nm}_{props.index(p)}_", 3)  # xx, yy, zz symbolic; one off-diagonal fixed non-zero for the conductivities
+            vs, cv = reals(f"{nm}_{props.index(p)}_", 3, *((0, None) if p == "permittivity" else ()))
+            assume += [x.t > 0 for x in vs] if p == "permittivity" else []  # xx, yy, zz symbolic; one off-diagonal fixed non-zero for the conductivities
             vals[nm][p] = vs
             c.symvars += 3
 
